@@ -32,10 +32,19 @@ type RunCommandOptions struct {
 }
 
 // RunCommand runs a shell command
-func RunCommand(ctx context.Context, opts *RunCommandOptions) error {
+func RunCommand(ctx context.Context, opts *RunCommandOptions) (err error) {
 	if opts == nil {
 		return ErrNilOptions
 	}
+
+	// The interpreter panics on some inputs it cannot handle (for example a
+	// glob pattern with invalid UTF-8 inside a bracket expression): report
+	// that as a failed command instead of crashing.
+	defer func() {
+		if r := recover(); r != nil {
+			err = fmt.Errorf("task: shell interpreter failed on command %q: %v", opts.Command, r)
+		}
+	}()
 
 	// Set "-e" or "errexit" by default
 	opts.PosixOpts = append(opts.PosixOpts, "e")
